@@ -348,7 +348,7 @@ def _cfg_cvs(tier, seed):
     return q + [
         {"n": 6, "cv": "kfold", "n_splits": 3, "seed": seed, "scoring": None, "weighted": True, "ncomp": 2},
         {"n": 6, "cv": "shuffle", "n_splits": 3, "seed": seed + 1, "scoring": "neg_mean_squared_error", "delayed": True},
-        {"n": 5, "cv": None, "scoring": None, "weighted": False},
+        {"n": 5, "cv": None, "scoring": "neg_mean_squared_error", "weighted": False},  # default cv: 5 folds of one row (R2 is undefined there)
         {"n": 6, "cv": "kfold", "n_splits": 2, "seed": 5, "scoring": "neg_mean_squared_error", "ncomp": 3, "weighted": True, "delayed": True},
     ]
 
